@@ -173,6 +173,16 @@ def el(measure, pos, col, sym, tail=None):
     return f
 
 
+def el_pair(measure, col, first, second):
+    """Two long objects one after the other in ONE column (hold then roll, or roll then hold)."""
+
+    def f(doc, slot):
+        n = _notes(doc)
+        n += [(measure, F(1, 8), col, first), (measure, F(3, 8), col, "3"), (measure, F(5, 8), col, second), (measure, F(7, 8), col, "3")]
+
+    return f
+
+
 ELEMENTS = [
     ("tap@half", el(0, F(1, 2), 1, "1")),
     ("tap@m1", el(1, F(0), 2, "1")),
@@ -182,6 +192,8 @@ ELEMENTS = [
     ("chord@0", el(0, F(0), 1, "1")),
     ("tap@1/3", el(0, F(1, 3), 1, "1")),
     ("lift@m2", el(2, F(5, 8), 0, "L")),
+    ("hold-then-roll", el_pair(0, 3, "2", "4")),
+    ("roll-then-hold", el_pair(2, 2, "4", "2")),
 ]
 
 
